@@ -290,9 +290,10 @@ macro_rules! rotr_128 {
         #[inline(always)]
         fn $name(self) -> Self {
             Self::new(unsafe {
+                // rotate the 128-bit word: each half takes the low bits of the other half
                 _mm_or_si128(
-                    _mm_srli_si128(self.x, $i as i32),
-                    _mm_slli_si128(self.x, 128 - $i as i32),
+                    _mm_srli_epi64(self.x, $i as i32),
+                    _mm_slli_epi64(_mm_shuffle_epi32(self.x, 0b0100_1110), 64 - $i as i32),
                 )
             })
         }
